@@ -17,6 +17,8 @@ def _graders():
         return _CACHE
     from mitxgraders import (FormulaGrader, NumericalGrader, MatrixGrader, StringGrader, SingleListGrader, ListGrader,
                              SumGrader, RandomFunction, DependentSampler, RealInterval, LinearComparer, RealMatrices)
+    import numpy as np
+    from mitxgraders import vector_span_comparer, vector_phase_comparer
     lin = LinearComparer()
     _CACHE.update(
         inf=NumericalGrader(answers='infty', allow_inf=True),
@@ -37,6 +39,14 @@ def _graders():
         any=StringGrader(accept_any=True, min_length=5, explain_minimums=None, wrong_msg='BYSTANDER-WRONG'),
         single=SingleListGrader(answers=['a', 'b'], subgrader=StringGrader(), wrong_msg='BYSTANDER-WRONG'),
         lst=ListGrader(answers=['1', '2'], subgraders=NumericalGrader(), debug=True),
+        supp=MatrixGrader(answers='[1,2]', suppress_matrix_messages=True, wrong_msg='BYSTANDER-WRONG'),
+        supp2=MatrixGrader(answers='[1,2]', suppress_matrix_messages=True, wrong_msg='BYSTANDER-OTHER'),
+        span=MatrixGrader(answers={'comparer': vector_span_comparer, 'comparer_params': ['[1,1,0]']}),
+        phase=MatrixGrader(answers={'comparer': vector_phase_comparer, 'comparer_params': ['[1,1,0]']}),
+        vec=FormulaGrader(answers='[1,2]', max_array_dim=1),
+        override=FormulaGrader(answers='1', suppress_warnings=True,
+                               user_functions={'sin': lambda x: 0.5, 'arctan2': lambda x, y: float(np.arctan2(x, y)),
+                                               'abs': lambda x: 7.0}),
         summ=SumGrader(answers={'lower': '1', 'upper': '4', 'summand': 'n', 'summation_variable': 'n'},
                        input_positions={'summand': 1}),
     )
@@ -72,6 +82,13 @@ def actions():
         call('single', 'x,y', 'a'),
         call('lst', ['1', '3'], ['x', '2']),
         call('summ', 'n+1', 'n'),
+        call('supp', '[1,2,3]', '5', '[[1,2],[3,4]]'),
+        call('supp2', '[1,2,3]', '[1,2]'),
+        call('span', '[0,0,0]', '[2,2,0]', '[1,0,0]'),
+        call('phase', '[0,0,0]', '[i,i,0]'),
+        call('vec', '5', '[1,2]', '[1,2,3]'),
+        call('override', 'sin(1)', 'arctan2(1,2)', 'abs(-3)', 'sin(1)+arctan2(1, 2)'),
+        call('mat', 'abs([3,4])', 'norm([3,4])', 'abs([3, 4])'),
     ]
 
 
